@@ -301,6 +301,7 @@ func genC03(w *World, res *CheckResult) {
 			}
 		}
 	}
+	genCheckerPointer(w, res)
 	// static result type of arithmetic: checker.combined against the dynamic result kind of the helpers (cells shared with C14)
 	{
 		tmp := &CheckResult{}
@@ -428,4 +429,26 @@ func c03Reference(op string, l, r c03Type) (accept, ok bool) {
 		return num(a) && num(b) || a == b || a == "nil" || b == "nil", true
 	}
 	return false, false
+}
+
+
+// genCheckerPointer: `#` is typed by the innermost collection (contract of checker.visitor.PointerNode).
+func genCheckerPointer(w *World, res *CheckResult) {
+	for _, n := range []string{"checker.visitor.PointerNode", "checker.indexType"} {
+		f2, ct := w.Func(n), w.Contracts[n]
+		if f2 == nil || ct == nil {
+			res.Obls = append(res.Obls, missingObl(n+"/exists", "function or contract missing"))
+			continue
+		}
+		e2 := NewExec(w)
+		w.forceInline[n] = true
+		e2.VerifyFunc(f2, ct, nil)
+		delete(w.forceInline, n)
+		for _, o := range e2.obls {
+			if !strings.Contains(o.Name, "/safe:") {
+				res.Obls = append(res.Obls, o)
+			}
+		}
+		res.Functions = append(res.Functions, n)
+	}
 }
